@@ -114,6 +114,7 @@ type Engine struct {
 	fnIDs     map[*ssa.Function]int32
 	typeIDs   map[string]int32
 	PoolPrecise bool
+	raceSeen  map[string]bool
 	stopped   bool
 	fnCount   map[*ssa.Function]int64
 	canonBufs []*bytes.Buffer
